@@ -78,13 +78,40 @@ def _body_src(body, ind):
     return out
 
 
-def class_source(name, program, acl_text):
-    lines = ["class %s(PartialGenerator):" % name,
-             "    def acl(self, device):",
-             '        return """']
-    lines += ["        " + x for x in acl_text.split("\n")]
-    lines += ['        """',
-              "    def run(self, device):"]
+ACL_MODES = ("text", "vendor-text", "none", "empty", "missing", "other-vendor")
+
+
+def eff_acl(g):
+    """the ACL text that is in force for the stub (huawei) device"""
+    return g["acl"] if g.get("acl_mode", "text") in ("text", "vendor-text") else ""
+
+
+def class_source(name, program, acl_text, mode="text"):
+    """mode: text         acl(device) returns the text, run(device)
+             vendor-text  acl_huawei(device) returns the text, run_huawei(device)
+             none / empty acl(device) returns None / ""
+             missing      no acl method at all
+             other-vendor acl_cisco(device) returns the text, run_huawei(device): the ACL was forgotten for this vendor"""
+    lines = ["class %s(PartialGenerator):" % name]
+    text_lines = ['        return """'] + ["        " + x for x in acl_text.split("\n")] + ['        """']
+    run_name = "run"
+    if mode == "text":
+        lines += ["    def acl(self, device):"] + text_lines
+    elif mode == "vendor-text":
+        lines += ["    def acl_huawei(self, device):"] + text_lines
+        run_name = "run_huawei"
+    elif mode == "none":
+        lines += ["    def acl(self, device):", "        return None"]
+    elif mode == "empty":
+        lines += ["    def acl(self, device):", '        return ""']
+    elif mode == "missing":
+        pass
+    elif mode == "other-vendor":
+        lines += ["    def acl_cisco(self, device):"] + text_lines
+        run_name = "run_huawei"
+    else:
+        raise ValueError(mode)
+    lines += ["    def %s(self, device):" % run_name]
     lines += _body_src(program, 2)
     lines += ["        if False:", "            yield"]
     return "\n".join(lines) + "\n"
@@ -272,18 +299,47 @@ def random_case(rnd):
     n = rnd.choice([1, 2, 2, 3])
     gens = []
     others = []
+    prev_aclless = False
     for i in range(n):
         prog = random_program(rnd)
+        mode = "text"
+        r = rnd.random()
+        if r < 0.14:
+            # a generator whose ACL is missing / None / "" for this vendor; sometimes it is also silent
+            mode = rnd.choice(["none", "empty", "missing", "other-vendor"])
+            if rnd.random() < 0.3:
+                prog = []
+        elif r < 0.24:
+            mode = "vendor-text"
         own = tree_of(yielded_paths(prog))
         base = own
-        if others and rnd.random() < 0.3:
-            base = ref_acl.tree_union(own, rnd.choice(others))   # an ACL that also claims another generator's rows
+        if others and rnd.random() < (0.8 if prev_aclless else 0.3):
+            # an ACL that also claims another generator's rows (mostly so when that one has no ACL of its own)
+            base = ref_acl.tree_union(own, others[-1] if prev_aclless else rnd.choice(others))
         acl = "\n".join(derived_acl(rnd, base, drop=rnd.choice([0.0, 0.0, 0.1, 0.25])))
         if rnd.random() < 0.1:
             acl += "\n" + rnd.choice(["a ~", "interface *\n    ~", "~ %global", "undo a *", "*", "~"])
         others.append(own)
-        gens.append(dict(name="G%d" % i, program=prog, acl=acl))
+        prev_aclless = mode in ("none", "empty", "missing", "other-vendor")
+        g = dict(name="G%d" % i, program=prog, acl=acl)
+        if mode != "text":
+            g["acl_mode"] = mode
+        gens.append(g)
     return gens
+
+
+def _aclless_hand():
+    """every ACL-less flavour x (yields a line | silent) x (alone | next to a generator whose ACL covers the rows)"""
+    out = []
+    cover = dict(name="G1", acl="a *  %cant_delete=0\ninterface *\n    ~", program=[["y", "a c"]])
+    for mode in ("none", "empty", "missing", "other-vendor"):
+        for prog in ([["y", "a b"], ["b", ["interface", "x"], [["y", "mtu 9000"]]]], []):
+            g = dict(name="G0", acl="a *\ninterface *\n    ~", program=prog, acl_mode=mode)
+            out.append([g])
+            out.append([g, cover])
+            out.append([dict(cover, name="G0"), dict(g, name="G1")])
+    out.append([dict(name="G0", acl="a *\n    x", program=[["b", ["a", "b"], [["y", "x"]]]], acl_mode="vendor-text")])
+    return out
 
 
 HAND = [
@@ -296,7 +352,7 @@ HAND = [
     [dict(name="G0", acl="a *\n    x *\n        ~", program=[["mb", ["a b", ["x", "y"]], [["ym", ["p", "q"]]]]])],
     [dict(name="G0", acl="a\n    x\n    ~ %global", program=[["bif", ["a", None], "default", [["y", "a c"], ["ym", ["a b", "  x y", "  mtu 9000", "a"]]]]])],
     [dict(name="G0", acl="interface *", program=[["y", "undo interface x"]])],
-]
+] + _aclless_hand()
 
 
 # ===== the real run
@@ -360,7 +416,7 @@ def build(gens):
     objs = []
     for g in gens:
         ns = {"PartialGenerator": env.PartialGenerator}
-        exec(compile(class_source(g["name"], g["program"], g["acl"]), "<c10:%s>" % g["name"], "exec"), ns)
+        exec(compile(class_source(g["name"], g["program"], g["acl"], g.get("acl_mode", "text")), "<c10:%s>" % g["name"], "exec"), ns)
         objs.append(ns[g["name"]](env.dev.storage))
     return objs
 
@@ -377,14 +433,14 @@ def _cause_text(e):
 # ===== oracle parts
 def own_verdict(g):
     own = tree_of(yielded_paths(g["program"]))
-    r = ref_acl.ref_eval(own, ref_acl.parse_acl(g["acl"], default_gen=g["name"]), VENDOR)
+    r = ref_acl.ref_eval(own, ref_acl.parse_acl(eff_acl(g), default_gen=g["name"]), VENDOR)
     return own, r
 
 
 def united_rules(gens):
     rules = []
     for g in gens:
-        rules += ref_acl.parse_acl(g["acl"], default_gen=g["name"])
+        rules += ref_acl.parse_acl(eff_acl(g), default_gen=g["name"])
     return ref_acl._unite(rules)
 
 
@@ -573,7 +629,10 @@ def run(tier="quick", seed=0, part=0, nparts=1):
              "None/'' token, condition=True/False), multiblock (1-2 blocks)) over rows %r, plus an ACL text derived from the "
              "program's own rows (literal / `*` / `~` / first word / `~ %%global` below the top level, %%cant_delete[=0/1], rows "
              "left out with prob. 0-0.25, sometimes also claiming another generator's rows) -- no %%prio and no %%global on "
-             "patterns other than `~` (the known C06 divergences are kept out of this module); %d hand-made cases first. Each "
+             "patterns other than `~` (the known C06 divergences are kept out of this module); ~14%% of the generators have NO ACL in "
+             "force for the vendor (acl() returns None / '' / no acl method / only acl_<other vendor>), 30%% of those yield nothing, "
+             "and the next generator then usually claims their rows; ~10%% use acl_<vendor>/run_<vendor> methods; %d hand-made "
+             "cases first (incl. every ACL-less flavour x yields/silent x alone/beside a covering generator). Each "
              "generator is run alone through _run_partial_generator and the set through _old_new_per_device (stub Huawei CE "
              "device, config='empty'). Cases where the reference matcher finds the governing rule ambiguous (equal-prio "
              "candidates that disagree) are counted in `ambiguous` and skipped. Non-trivial = a GeneratorError or an "
